@@ -296,7 +296,7 @@ theorem fext_resumeBranch (p : Params) {w : World} (hi : Inv src w) (h : FExt sr
         exact fext_cons h1 _ (h1.fBelow _ List.mem_cons_self) (fun e he hd o hv => by
           have := h1.noFailed e he hd o hv
           intro hid; exact this (by rw [hid]; exact List.mem_cons_self))
-      · simp only [failedOf, if_true, List.nil_append]
+      · simp only [failedOf, withPeer_cOk, if_true, List.nil_append]
         exact h
 
 theorem fext_fullBranch (p : Params) (hp5 : p.perKeyObject = true) (hp16 : p.storeAfterFinished = true)
@@ -311,9 +311,9 @@ theorem fext_fullBranch (p : Params) (hp5 : p.perKeyObject = true) (hp16 : p.sto
   have hf : ∀ o : Nat, o < w.nObj → (w.heap o).id ≠ src w.nId := fun o ho => fresh_of_inv hi hinj ho (Nat.le_refl _)
   have hid : ∃ m, m < w.nId + 1 ∧ src w.nId = src m := ⟨w.nId, by omega, rfl⟩
   have i5 := inv_createSessionState p i4 c.server
-    { id := src w.nId, vers := p.version, suite := su, ms := w.nSec, peer := none } hid hf rfl
+    { id := src w.nId, vers := p.version, suite := su, ms := w.nSec, peer := none, cpeer := sentCert p c } hid hf rfl
   have f5 : FExt src F (createSessionState p { w with nId := w.nId + 1, nSec := w.nSec + 1 } c.server
-      { id := src w.nId, vers := p.version, suite := su, ms := w.nSec, peer := none }) := by
+      { id := src w.nId, vers := p.version, suite := su, ms := w.nSec, peer := none, cpeer := sentCert p c }) := by
     unfold createSessionState; exact fext_allocPutS p i4 f4 _ _ _
   -- a failing full handshake: the new identifier and the offered one join F
   have failCase : ∀ w' : World, Inv src w' → FExt src F w' → w'.nId = w.nId + 1 → w'.client = w.client →
@@ -340,32 +340,32 @@ theorem fext_fullBranch (p : Params) (hp5 : p.perKeyObject = true) (hp16 : p.sto
   · split
     · simp only [failedOf, failed, Bool.false_eq_true, if_false, Option.toList_some, List.append_assoc, List.singleton_append]
       exact failCase _ i4 f4 rfl rfl (fun _ _ => rfl)
-    · simp only [failedOf, failed, Bool.false_eq_true, if_false, Option.toList_some, List.append_assoc, List.singleton_append]
+    · simp only [failedOf, withPeer_cOk, withPeer_offered, withPeer_returned, failed, Bool.false_eq_true, if_false, Option.toList_some, List.append_assoc, List.singleton_append]
       exact failCase _ i5 f5 rfl rfl
         (fun o ho => heap_alloc_old { w with nId := w.nId + 1, nSec := w.nSec + 1 } _ ho)
-    · simp only [failedOf, if_true, List.nil_append]
+    · simp only [failedOf, withPeer_cOk, if_true, List.nil_append]
       have hheap5 : ∀ o : Nat, o < w.nObj → (createSessionState p { w with nId := w.nId + 1, nSec := w.nSec + 1 } c.server
-          { id := src w.nId, vers := p.version, suite := su, ms := w.nSec, peer := none }).heap o = w.heap o :=
+          { id := src w.nId, vers := p.version, suite := su, ms := w.nSec, peer := none, cpeer := sentCert p c }).heap o = w.heap o :=
         fun o ho => heap_alloc_old { w with nId := w.nId + 1, nSec := w.nSec + 1 } _ ho
       refine fext_createNewSession p hp5 i5 f5 c.dst _ hid ?_ ?_ (F_fresh hinj h (Nat.le_refl _)) ?_
       · intro o ho hido
         have hobj : (createSessionState p { w with nId := w.nId + 1, nSec := w.nSec + 1 } c.server
-          { id := src w.nId, vers := p.version, suite := su, ms := w.nSec, peer := none }).nObj = w.nObj + 1 := rfl
+          { id := src w.nId, vers := p.version, suite := su, ms := w.nSec, peer := none, cpeer := sentCert p c }).nObj = w.nObj + 1 := rfl
         rw [hobj] at ho
         by_cases a : o < w.nObj
         · rw [hheap5 o a] at hido; exact absurd hido (hf o a)
         · have e : o = w.nObj := by omega
           subst e
           have : (createSessionState p { w with nId := w.nId + 1, nSec := w.nSec + 1 } c.server
-            { id := src w.nId, vers := p.version, suite := su, ms := w.nSec, peer := none }).heap w.nObj =
-            { id := src w.nId, vers := p.version, suite := su, ms := w.nSec, peer := none } :=
+            { id := src w.nId, vers := p.version, suite := su, ms := w.nSec, peer := none, cpeer := sentCert p c }).heap w.nObj =
+            { id := src w.nId, vers := p.version, suite := su, ms := w.nSec, peer := none, cpeer := sentCert p c } :=
             heap_alloc_new { w with nId := w.nId + 1, nSec := w.nSec + 1 } _
           rw [this]; exact ⟨rfl, rfl, rfl⟩
       · intro j hj i e he o2 hv hido
         simp only [Option.some.injEq] at hj
         subst hj
         have hsrv : (createSessionState p { w with nId := w.nId + 1, nSec := w.nSec + 1 } c.server
-          { id := src w.nId, vers := p.version, suite := su, ms := w.nSec, peer := none }).servers =
+          { id := src w.nId, vers := p.version, suite := su, ms := w.nSec, peer := none, cpeer := sentCert p c }).servers =
           setServer w.servers c.server (LRU.put p.strictDelete (w.servers c.server) (idKey (src w.nId)) (some w.nObj)) := rfl
         rw [hsrv] at he
         rcases mem_setServer he with ⟨rfl, he⟩ | ⟨hne, he⟩
